@@ -25,8 +25,11 @@ func Index(json any) any {
 	classIndex := make(map[string][]string)
 	nodeIndex := make(types.ObjectMap)
 
-	g := json.(types.ObjectMap)["@graph"]
-	nodes := g.([]any)
+	// a document without nodes is flattened to an empty list, not to a map with a @graph key
+	var nodes []any
+	if doc, ok := json.(types.ObjectMap); ok {
+		nodes, _ = doc["@graph"].([]any)
+	}
 
 	for _, nn := range nodes {
 		n := nn.(types.ObjectMap)
